@@ -33,6 +33,33 @@ CLAIMED = {
         "the compression functions are compared on explored messages (they are the Lean spec's own executable definitions); OpenSSL is a "
         "trusted external; messages >= 2^29 bytes are compared between the C builds and hashlib only.",
    technique="Lean 4 proof (invariant over update calls, refinement of streaming hash to Merkle-Damgard spec; decide on generated tables) + three-way differential correspondence"),
+ 'C06': dict(
+   text="Machine-checked proof (Lean 4) about the model of read_lead + read_header_from_file: open succeeds only if the stored checksum "
+        "equals H(fixed magic ++ lead before the checksum ++ whole remaining header); these regions plus the stored checksum partition "
+        "every header byte; two files passing the gate with the same geometry and the same stored checksum (or the same hashed bytes) have "
+        "identical headers after the identifier or exhibit an explicit hash collision. Tied to the code by exhaustive single-byte mutation "
+        "of valid headers (every position x 255 values) run on the real library and on the model.",
+   design_ref="DESIGN.md section 7 C06",
+   note="Trusted: Lean kernel (axioms propext, Classical.choice, Quot.sound); hand-written model of header.c checked by correspondence on "
+        "explored files only; hash function is a parameter of the theorems (collisions stated, not assumed away).",
+   technique="Lean 4 proof (unfolding of the monadic parser model, list-slice algebra, collision-or-equal argument) + exhaustive differential mutation"),
+ 'C07': dict(
+   text="Machine-checked proof (Lean 4): hex_to_int accepts exactly 0-9a-fA-F with the right value (all byte values), "
+        "ascii_checksum_to_bin succeeds exactly on hex strings and returns their value, the digest setter's acceptance condition, and "
+        "read_lead accepts under pins iff it accepts without pins and each pinned value equals the stored one; with the C06 gate a pinned "
+        "open authenticates the header bytes. Tied to the code by OPEN ops with all 256 byte values at every digest position.",
+   design_ref="DESIGN.md section 7 C07",
+   note="Trusted: as C06; the setter ordering rules and zck_validate_lead are modelled and corresponded, the validate-then-open equivalence is not a theorem.",
+   technique="Lean 4 proof (case analysis over byte ranges, induction over digit pairs, iff over the monadic lead parser) + differential correspondence"),
+ 'C13': dict(
+   text="Machine-checked proof (Lean 4) about the model of read_lead/read_preface/index_read/read_sig: on success the reported count equals "
+        "the number of chunks and is >= 1, chunk numbers and start offsets are exact running sums, header+data length and every size fit "
+        "ssize_t, int-sized fields that do not fit are rejected, and no read leaves the header buffer. Equality of the full report with an "
+        "independent reference parser (Lean, from zchunk_format.txt) is evaluated on the implementation's output for every generated header.",
+   design_ref="DESIGN.md section 7 C13",
+   note="Partial: 'report = reference parser' is a checked predicate on explored inputs (valid and re-sealed mutant headers), not a theorem; "
+        "the theorems cover offsets/count/overflow-rejection/bounds of the model. Model tied to code by correspondence only.",
+   technique="Lean 4 proof (induction over the index-entry loop, invariants on running sums) + differential correspondence against an independent Lean reference parser"),
 }
 
 NOT_YET = "machinery for this property is not built yet in this snapshot (work in progress; see DESIGN.md section 11 build order)"
